@@ -363,14 +363,17 @@ def run_faults(key, cfg):
 
         with open(path, "wt") as f:
             f.write(src)
+        if _BACKSTOPS[0] >= 3:
+            return [], 0, 0  # see run_program
         sys.settrace(discover)
         try:
-            try:
-                _doctrans(path, cfg)
-            except Exception:
-                pass
+            o, _val = run_with_backstop(_doctrans, path, cfg)  # (catches what doctrans raises; a run that does not come back is cut after 20 s)
         finally:
             sys.settrace(None)
+        if o == "exhausted":
+            _BACKSTOPS[0] += 1
+            sig = dict(check="doctrans", clause="fuel_exhausted", faults=True, style=cfg["style"], type_annotations=cfg["type_annotations"])
+            return [dict(sig=sig, expected="terminates (20 s backstop; C11 decides termination with a step budget)", observed="backstop hit", case=dict(kind="faults", key=key, cfg=cfg))], 1, 0
         for target in entered:
             with open(path, "wt") as f:
                 f.write(src)
@@ -387,7 +390,12 @@ def run_faults(key, cfg):
             raised = None
             try:
                 try:
-                    _doctrans(path, cfg)
+                    o, val = run_with_backstop(_doctrans, path, cfg)
+                    if o == "raises":
+                        raised = val
+                    elif o == "exhausted":
+                        _BACKSTOPS[0] += 1
+                        break
                 except BaseException as e:  # noqa
                     raised = e
             finally:
